@@ -660,7 +660,14 @@ func (f *indexFetcher) createIndexIterator() (indexIterator, error) {
 	// fieldConditions might be empty if a query contains an empty condition like User(filter: {name: {}})
 	// or if there is no filter, but other arguments like ordering or limit are specified.
 	if len(fieldConditions) == 0 {
-		return f.tryCreateOrderedIndexIterator()
+		iter, err := f.tryCreateOrderedIndexIterator()
+		if err != nil || iter == nil {
+			return iter, err
+		}
+		if f.hasIndexArrayOrJSONField() {
+			iter = &memorizingIndexIterator{inner: iter}
+		}
+		return iter, nil
 	}
 
 	matchers, err := createValueMatchers(fieldConditions)
@@ -707,11 +714,21 @@ func (f *indexFetcher) createIndexIterator() (indexIterator, error) {
 		return nil, NewErrInvalidFilterOperator(fieldConditions[0].op)
 	}
 
-	if doConditionsHaveArrayOrJSON(fieldConditions) {
+	// an index over an array or JSON field holds several entries per document
+	if doConditionsHaveArrayOrJSON(fieldConditions) || f.hasIndexArrayOrJSONField() {
 		iter = &memorizingIndexIterator{inner: iter}
 	}
 
 	return iter, nil
+}
+
+func (f *indexFetcher) hasIndexArrayOrJSONField() bool {
+	for i := range f.indexedFields {
+		if f.indexedFields[i].Kind.IsArray() || f.indexedFields[i].Kind == client.FieldKind_NILLABLE_JSON {
+			return true
+		}
+	}
+	return false
 }
 
 func doConditionsHaveArrayOrJSON(conditions []fieldFilterCond) bool {
